@@ -73,7 +73,7 @@ def _register_stage1():
             ctx.prove("roundtrip.length", z3.BoolVal(len(back) == 2 * n))
             for k in range(2 * n):
                 ctx.prove("roundtrip.items_to_bytes(bytes_to_items(b)) == b", Z(back[k]) == raw[k].z)
-        harness("lm.bytes_items.roundtrip[pairs=%d]" % n, props=["C10", "C01"], functions=["code_data._line_mapping.bytes_to_items", "code_data._line_mapping.items_to_bytes"],
+        harness("lm.bytes_items.roundtrip[pairs=%d]" % n, props=["C10", "C01", "C02"], functions=["code_data._line_mapping.bytes_to_items", "code_data._line_mapping.items_to_bytes"],
                 configs="any", assumes=["int.from_bytes([b], 'big', signed=True) == b - 256 if b >= 128 else b", "rule 6: the comprehensions are element-wise (lifting from %d pairs to any length)" % n],
                 notes="all byte values; pointwise inverse")(h)
 
@@ -202,7 +202,7 @@ def _register_expand():
                 ctx.prove("post.line_deltas_sum_to_the_entry", sb(G.sum_l == l0))
             ctx.prove("post.at_least_one_entry_emitted", sb(G.n >= 1) if isinstance(G.n, SymInt) else z3.BoolVal(G.n >= 1))
         tag = "linetable,no-line" if noline else "linetable" if is_lt else "lnotab"
-        harness("lm.expand_items.sums_and_representability[%s]" % tag, props=["C10", "C01", "C03"], functions=["code_data._line_mapping.expand_items"], configs="any",
+        harness("lm.expand_items.sums_and_representability[%s]" % tag, props=["C10", "C01", "C03", "C05", "C06"], functions=["code_data._line_mapping.expand_items"], configs="any",
                 notes="one collapsed entry with unbounded deltas; while loops cut at sidecar invariants; every emitted entry fits its byte, the cumulative deltas are preserved, "
                       "no-line sections emit only -128 and lined sections never emit it")(h)
 
@@ -475,7 +475,7 @@ def h_modify(ctx, cfg):
             ctx.prove("no_line_entry_untouched", z3.BoolVal(d.writes == [] and d.value is None))
 
 
-@harness("lm.LineMapping.additional_line", props=["C01", "C10"], functions=["code_data._line_mapping.LineMapping.pop_additional_line", "code_data._line_mapping.LineMapping.add_additional_line"],
+@harness("lm.LineMapping.additional_line", props=["C01", "C10", "C08", "C12"], functions=["code_data._line_mapping.LineMapping.pop_additional_line", "code_data._line_mapping.LineMapping.add_additional_line"],
          configs="any", engine="E2",
          notes="bounded case analysis on the leftovers after decoding: nothing left -> None; exactly the entry at len(code) -> AdditionalLine(line, extra offsets) and add_additional_line puts "
                "it back unchanged; anything else -> NotImplementedError (raise rather than drop)")
@@ -489,7 +489,13 @@ def h_additional_line(ctx, cfg):
     ctx.prove("nothing_left", z3.BoolVal(LM({}, {}).pop_additional_line(n) is None))
     m = LM({n: 7}, {n: [1, -2]})
     al = m.pop_additional_line(n)
-    ctx.prove("trailing_entry_becomes_the_additional_line", z3.BoolVal(al == AdditionalLine(7, (1, -2))))
+    ctx.prove("trailing_entry_becomes_the_additional_line", z3.BoolVal(al == AdditionalLine(7, (1, -2)) and type(al.additional_offsets) is tuple))
+    try:
+        hash(al)
+        hashable = True
+    except TypeError:
+        hashable = False
+    ctx.prove("additional_line_is_an_immutable_hashable_value", z3.BoolVal(hashable))
     ctx.prove("trailing_entry_without_extras", z3.BoolVal(LM({n: 7}, {}).pop_additional_line(n) == AdditionalLine(7, ())))
     back = LM({}, {})
     back.add_additional_line(al, n)
